@@ -54,6 +54,7 @@ def shards(tier, seed):
             out.append(dict(name="scanN/L%d/m%d" % (L, mi), kind="scan", L=L, mi=mi, N=True, numba_threads=2, weight=5 ** L))
     for L in ((130, 300, 33000, (1 << 20) + 300) if tier == "quick" else (130, 300, 33000, 70000, (1 << 20) + 300, (1 << 21) + 77)):
         out.append(dict(name="planted/L%d" % L, kind="planted", L=L, numba_threads=4, weight=L))
+    out.append(dict(name="many_motifs", kind="many_motifs", numba_threads=4, weight=2500))
     out.append(dict(name="history", kind="history", numba_threads=2, weight=800))
     out.append(dict(name="fasta", kind="fasta", numba_threads=2, weight=500))
     out.append(dict(name="threads", kind="threads", numba_threads=16, weight=3000))
@@ -320,8 +321,12 @@ def run_planted(rec, sh, tier, seed):
     motifs = []
     for k, w in enumerate(widths):
         cons = rs.randint(0, 4, w)
-        pw = numpy.full((4, w), 0.05)
-        pw[cons, numpy.arange(w)] = 0.85
+        # consensus probability 0.85: its discretised column score (18 bins of 0.1) lies ABOVE the real log-odds 1.766, so the real
+        # score of the consensus stays inside the table; 0.8351: real log-odds 1.74 = 17.4 bins, discretised 17, so the real-valued
+        # consensus score lies 0.4 * w bins beyond the largest attainable discretised score (exact p-value 0, not a neighbour's entry)
+        pc = 0.85 if k % 4 < 2 else 0.8351
+        pw = numpy.full((4, w), (1 - pc) / 3)
+        pw[cons, numpy.arange(w)] = pc
         if k % 2:
             j = w // 2
             pw[:, j] = 0.25                                 # an uninformative column
@@ -384,6 +389,51 @@ def run_planted(rec, sh, tier, seed):
         rec.sample(dict(kind="planted", L=L, widths=widths, thresholds=[1e-2, 1e-4, 1e-6], planted_offsets="0,1,126..128,254..256,32766..32768,65534..65536,L-w-1,L-w"))
     finally:
         shutil.rmtree(d, ignore_errors=True)
+
+
+def run_many_motifs(rec, tier, seed):
+    """Motif counts beyond 64 / 128 / 255 in one call (with and without reverse complements): every hit is looked up in its own motif's table."""
+    from tangermeme.tools.fimo import fimo
+    rs = numpy.random.RandomState(31 + seed)
+    L, nseq = 150, 4
+    motifs = []
+    for k in range(300):
+        w = 2 + (k * 5) % 9
+        cons = rs.randint(0, 4, w)
+        pc = (0.85, 0.8351, 0.7, 0.55)[k % 4]
+        pw = numpy.full((4, w), (1 - pc) / 3)
+        pw[cons, numpy.arange(w)] = pc
+        motifs.append(("m%03d" % k, pw, cons))
+    seqs = []
+    for si in range(nseq):
+        codes = rs.randint(0, 4, L)
+        for k in range(si, 300, 7):                           # plant a share of the motifs (both orientations)
+            cons = motifs[k][2]
+            o = (k * 13 + si) % (L - len(cons))
+            codes[o:o + len(cons)] = cons if k % 2 else (3 - cons[::-1])
+        seqs.append(codes)
+    X = ohe(numpy.stack(seqs), 4)
+    n_hits = 0
+    for nm in ((64, 65, 129, 300) if tier == "quick" else (63, 64, 65, 128, 129, 255, 256, 257, 300)):
+        sub = motifs[:nm]
+        md = {n: torch.from_numpy(p) for n, p, _ in sub}
+        mlist = [(n, p) for n, p, _ in sub]
+        mnames = [n for n, _, _ in sub]
+        for thr in (1e-2, 1e-3):
+            for rc in (True, False):
+                case = dict(fn="fimo", L=L, n_sequences=nseq, n_motifs=nm, threshold=thr, bin_size=0.1, reverse_complement=rc, input="tensor (many motifs)", seed=seed)
+                ref, und = ref_hits_long(seqs, mlist, 1e-4, 0.1, thr, rc)
+                st, dfs = call(fimo, md, X, threshold=thr, reverse_complement=rc)
+                rec.case(nseq * L * nm * (2 if rc else 1), len(ref))
+                if st != "ok":
+                    rec.violation("fimo:raises", case, observed=dfs)
+                    continue
+                got, dup = df_to_hits(dfs)
+                if compare(rec, case, got, dup, ref, und, mnames, thr):
+                    n_hits += len(ref)
+                rec.observe(nm, thr, rc, len(ref))
+    rec.count("reference_hits", n_hits)
+    rec.sample(dict(kind="many_motifs", n_motifs=[64, 65, 129, 300], widths="2..10", L=L, sequences=nseq))
 
 
 def run_history(rec, tier, seed):
@@ -574,6 +624,8 @@ def run_shard(sh, tier, seed):
         run_history(rec, tier, seed)
     elif k == "planted":
         run_planted(rec, sh, tier, seed)
+    elif k == "many_motifs":
+        run_many_motifs(rec, tier, seed)
     elif k == "fasta":
         run_fasta(rec, tier, seed)
     elif k == "threads":
@@ -590,6 +642,8 @@ def replay(v):
         run_history(rec, "quick", 0)
     elif c.get("probe"):
         run_binedge(rec, "quick", 0)
+    elif "many motifs" in c.get("input", ""):
+        run_many_motifs(rec, "quick", c.get("seed", 0))
     elif "planted" in c.get("input", ""):
         run_planted(rec, dict(L=c["L"]), "quick", c.get("seed", 0))
     elif c.get("input", "").startswith("fasta"):
